@@ -2,7 +2,7 @@ From Coq Require Import ZArith List Bool String.
 From Coq Require Import ExtrOcamlBasic.
 From Falcon.lib Require Import Wire PyStr.
 From Falcon.C14 Require Import Spec.
-From Falcon.C13 Require Import Model ModelReaders Spec ModelPart SpecPart.
+From Falcon.C13 Require Import Model ModelReaders Spec ModelPart SpecPart ModelHeap.
 Import ListNotations.
 Open Scope Z_scope.
 
@@ -83,6 +83,7 @@ Definition v_part (p : part) : val := L [v_headers (p_headers p); vstr (p_conten
         7 BodyPart attributes of a header dictionary  [7; headers] -> [content_type; name; filename]
         8 secure_filename  [8; filename; NFKD(filename)]
         9 fields -> parts  [9; boundary; fields] -> [[part; wf_field]]
+       10 metadata reads  [10; header dictionaries of the yielded parts; times 0 before/1 after/2 end/3 twice]
         4 oracles      [4; cs; cfg; parts; script; observed]               -> [roundtrip ok; no crash] *)
 Definition run (v : val) : val :=
   match v with
@@ -107,6 +108,12 @@ Definition run (v : val) : val :=
   | L [I 8; fname; nfkd] => vopt vstr (secure_filename (fun _ => dstr nfkd) (dstr fname))
   | L [I 9; b; fs] =>
     vlist (fun f => L [v_part (field_part f); vbool (wf_field (dstr b) f)]) (dlist d_field fs)
+  | L [I 10; hss; times] =>
+    let ps := map (fun h => {| po_headers := h; po_data := None |}) (dlist d_headers hss) in
+    let ts := dlist (fun t => let z := dZ t in
+                              if z =? 1 then MAfter else if z =? 2 then MEnd
+                              else if z =? 3 then MTwice else MBefore) times in
+    vlist (vlist v_view) (metadata_views false ps ts)
   | _ => L [I (-1)]
   end.
 
